@@ -15,7 +15,8 @@ import (
 func handlerKernel(rel, fn, leanName, params, resultTy, prelude, tail string, sp Spec) func() string {
 	return func() string {
 		fd := mustFunc(rel, fn)
-		t := &tr{sp: sp}
+		t := &tr{sp: sp, file: parseFile(rp(rel))}
+		t.prepare(fd)
 		body := t.block(fd.Body.List, tail, "  ")
 		_ = ast.Inspect
 		return fmt.Sprintf("/-- generated from %s func %s (whole body) -/\ndef %s %s : %s :=\n  %s%s\n", rel, fn, leanName, params, resultTy, prelude, body)
@@ -51,7 +52,7 @@ func init() {
 		{"addChainInternal", handlerKernel(h, "addChainInternal", "addChainInternal",
 			"(bodyBad chainBad leafBuildBad buildFails rpcFails : Bool) (mapped : Nat) (rspNil qlNil leafNil leafUndecodable trailing signFails sctMarshalFails writeFails : Bool)",
 			"Nat × Bool × Bool × Bool", pre+"let sct_ := false\n  ", "(0, false, rpc_, sct_)",
-			Spec{Kind: "i64", Lazy: true, Ret: "statusstate", StateVars: []string{"rpc_", "sct_"}, Ignore: ign, Status: st,
+			Spec{Kind: "i64", Lazy: true, Inline: true, InitCondByCall: map[string]string{".UnmarshalBinary": "rootBad"}, Ret: "statusstate", StateVars: []string{"rpc_", "sct_"}, Ignore: ign, Status: st,
 				IgnoreLHS: []string{"method", "etype", "timeMillis", "req", "loggedLeaf"},
 				ErrCalls: map[string]string{"ParseBodyAsJSONChain": "bodyBad", "verifyAddChain": "chainBad", "ct.MerkleTreeLeafFromChain": "leafBuildBad",
 					"li.buildLeaf": "buildFails", "li.rpcClient.QueueLeaf": "rpcFails|rpc_ := true", "buildV1SCT": "signFails",
@@ -62,14 +63,14 @@ func init() {
 				Repl: common(map[string]string{"rsp == nil": "rspNil", "rsp.QueuedLeaf == nil": "qlNil", "rsp.QueuedLeaf.Leaf == nil": "leafNil",
 					"len(rest) > 0": "trailing"})})},
 		{"getSTH", handlerKernel(h, "getSTH", "getSTHHandler", "(sthFails : Bool) (mapped : Nat) (writeFails : Bool)", "Nat × Bool", "", "(0, false)",
-			Spec{Kind: "i64", Lazy: true, Ret: "statusstate", Ignore: ign, Status: st, IgnoreLHS: []string{"qctx", "rqu"},
+			Spec{Kind: "i64", Lazy: true, Inline: true, InitCondByCall: map[string]string{".UnmarshalBinary": "rootBad"}, Ret: "statusstate", Ignore: ign, Status: st, IgnoreLHS: []string{"qctx", "rqu"},
 				ErrCalls: map[string]string{"li.getSTH": "sthFails"},
 				InitCond: map[string]string{"err := writeSTH(sth, w) ; err != nil": "writeFails"},
 				Repl:     common(nil)})},
 		{"getSTHConsistency", handlerKernel(h, "getSTHConsistency", "getSTHConsistency",
 			"(parseFails : Bool) (first_ second_ : Int) (rpcFails : Bool) (mapped : Nat) (rootBad : Bool) (rootSize : Int) (proofNil pathOk marshalFails writeFails : Bool)",
 			"Nat × Bool × Bool", pre, "(0, false, rpc_)",
-			Spec{Kind: "i64", Lazy: true, Ret: "statusstate", StateVars: []string{"rpc_"}, Ignore: ign, Status: st,
+			Spec{Kind: "i64", Lazy: true, Inline: true, InitCondByCall: map[string]string{".UnmarshalBinary": "rootBad"}, Ret: "statusstate", StateVars: []string{"rpc_"}, Ignore: ign, Status: st,
 				IgnoreLHS: []string{"jsonRsp", "jsonRsp.Consistency", "req", "currentRoot"},
 				ErrCalls: map[string]string{"parseGetSTHConsistencyRange": "parseFails", "li.rpcClient.GetConsistencyProof": "rpcFails|rpc_ := true",
 					"json.Marshal": "marshalFails", "w.Write": "writeFails"},
@@ -79,7 +80,7 @@ func init() {
 		{"getProofByHash", handlerKernel(h, "getProofByHash", "getProofByHash",
 			"(hashLen : Int) (hashBad treeSizeBad : Bool) (treeSize_ : Int) (rpcFails : Bool) (mapped : Nat) (rootBad : Bool) (rootSize nProofs : Int) (pathOk marshalFails writeFails : Bool)",
 			"Nat × Bool × Bool", pre, "(0, false, rpc_)",
-			Spec{Kind: "i64", Lazy: true, Ret: "statusstate", StateVars: []string{"rpc_"}, Ignore: ign, Status: st,
+			Spec{Kind: "i64", Lazy: true, Inline: true, InitCondByCall: map[string]string{".UnmarshalBinary": "rootBad"}, Ret: "statusstate", StateVars: []string{"rpc_"}, Ignore: ign, Status: st,
 				IgnoreLHS:  []string{"proofRsp", "proofRsp.AuditPath", "req", "currentRoot"},
 				InputCalls: []string{"r.FormValue"},
 				ErrCalls: map[string]string{"base64.StdEncoding.DecodeString": "hashBad", "strconv.ParseInt": "treeSizeBad",
@@ -91,7 +92,7 @@ func init() {
 		{"getEntries", handlerKernel(h, "getEntries", "getEntries",
 			"(parseFails : Bool) (start_ end_ : Int) (rpcErr : Bool) (rpcStatus : Nat) (rootBad : Bool) (rootSize nLeaves : Int) (misindexed leafDecodeFails marshalFails writeFails : Bool)",
 			"Nat × Bool × Bool", pre, "(0, false, rpc_)",
-			Spec{Kind: "i64", Lazy: true, Ret: "statusstate", StateVars: []string{"rpc_"}, Ignore: ign, Status: st,
+			Spec{Kind: "i64", Lazy: true, Inline: true, InitCondByCall: map[string]string{".UnmarshalBinary": "rootBad"}, Ret: "statusstate", StateVars: []string{"rpc_"}, Ignore: ign, Status: st,
 				IgnoreLHS: []string{"req", "currentRoot"},
 				ErrCalls: map[string]string{"parseGetEntriesRange": "parseFails", "rpcGetLeavesByRange": "rpcErr|rpc_ := true",
 					"marshalGetEntriesResponse": "leafDecodeFails", "json.Marshal": "marshalFails", "w.Write": "writeFails"},
@@ -107,7 +108,7 @@ func init() {
 		{"getEntryAndProof", handlerKernel(h, "getEntryAndProof", "getEntryAndProof",
 			"(parseFails : Bool) (leafIndex_ treeSize_ : Int) (rpcErr : Bool) (rpcStatus : Nat) (rootBad : Bool) (rootSize : Int) (leafNil : Bool) (leafValLen : Int) (proofNil : Bool) (nHashes : Int) (marshalFails writeFails : Bool)",
 			"Nat × Bool × Bool", pre, "(0, false, rpc_)",
-			Spec{Kind: "i64", Lazy: true, Ret: "statusstate", StateVars: []string{"rpc_"}, Ignore: ign, Status: st,
+			Spec{Kind: "i64", Lazy: true, Inline: true, InitCondByCall: map[string]string{".UnmarshalBinary": "rootBad"}, Ret: "statusstate", StateVars: []string{"rpc_"}, Ignore: ign, Status: st,
 				IgnoreLHS: []string{"jsonRsp", "req", "currentRoot"},
 				ErrCalls: map[string]string{"parseGetEntryAndProofParams": "parseFails", "rpcGetEntryAndProof": "rpcErr|rpc_ := true",
 					"json.Marshal": "marshalFails", "w.Write": "writeFails"},
@@ -145,6 +146,7 @@ func init() {
 			"let rpc_ := false\n  ", "(ErrKind.ok, rpc_)",
 			Spec{Kind: "i64", Lazy: true, Ret: "errkind", StateVars: []string{"rpc_"}, Ignore: ign, IgnoreLHS: []string{"req", "req.ChargeTo", "quotaUser", "ok", "slr", "currentRoot"},
 				ErrCalls: map[string]string{"client.GetLatestSignedLogRoot": "rpcFails|rpc_ := true"},
+				TypeSwitch: map[string]map[string]string{"ctx.Value(remoteQuotaCtxKey)": {"nil": "(!quotaSet)", "string": "(quotaSet && !quotaBadType)"}},
 				InitCond: map[string]string{"q := ctx.Value(remoteQuotaCtxKey) ; q != nil": "quotaSet", "err := currentRoot.UnmarshalBinary(slr.GetLogRoot()) ; err != nil": "rootBad"},
 				Repl:     map[string]string{"!ok": "quotaBadType", "slr == nil": "slrNil", "len(currentRoot.RootHash)": "hashLen", "sha256.Size": "(32 : Int)"}})},
 	}})
